@@ -45,6 +45,12 @@ def cases(desc):
         return
     rng = common.rng_for(ID, desc)
     for i in range(desc["n"]):
+        if rng.random() < 0.08:
+            # whole-array overwrite through the values setter, followed by an index assignment
+            ak = rng.choice('fi')
+            sp = gen.spec(rng, mindim=1, maxdim=3, minsize=1, maxsize=4, dtype=ak)
+            yield {"block": "valset", "a": sp, "ak": ak, "rk": rng.choice(['same', 'same', 'float', 'int', 'list']), "seed": rng.randrange(10 ** 6)}
+            continue
         yield gen_case(rng)
 
 
@@ -182,7 +188,68 @@ def same_py(a, b):
     return a == b
 
 
+def check_valset(case, ctx):
+    import random
+    rng = random.Random(case["seed"])
+    sp = case["a"]
+    a = gen.build(sp)
+    v0 = np.array(sp["values"], copy=True)
+    rk = case["rk"]
+    ids = np.array(rng.sample(range(5000, 9000), max(1, v0.size))[:v0.size]).reshape(v0.shape)
+    if rk == 'same':
+        rhs = ids.astype(v0.dtype)
+    elif rk == 'float':
+        rhs = ids + 0.5
+    elif rk == 'int':
+        rhs = ids.astype(np.int64)
+    else:
+        rhs = ids.astype(v0.dtype).tolist()
+    exp = np.asarray(rhs)
+    if v0.dtype.kind == 'f':
+        exp = exp.astype(float)
+    before_axes = tuple(monitors.snap_axis(ax) for ax in a.axes)
+    before_attrs = monitors.freeze(a.attrs)
+    label = "a.values = %s %s on %s%r" % (rk, codec.short(rhs, 80), v0.dtype, v0.shape)
+
+    def fn():
+        a.values = rhs
+    _, exc = ctx.call(label, fn, operands=(a,), mutates=(a,), meta=None)
+    ctx.outcomes['values-setter'] += 1
+    if exc is not None:
+        ctx.v(ID, "valset:raised:" + type(exc).__name__, "%s raised %s: %s" % (label, type(exc).__name__, str(exc)[:150]))
+        return ('valset', rk, 'raised')
+    if a.values.shape != exp.shape or a.values.dtype.kind != exp.dtype.kind or not model.values_eq(a.values, exp):
+        ctx.v(ID, "valset:mismatch", "%s: values now %s, expected %s" % (label, model.brief(a.values), model.brief(exp)))
+        return ('valset', rk, 'mismatch')
+    if tuple(monitors.snap_axis(ax) for ax in a.axes) != before_axes or monitors.freeze(a.attrs) != before_attrs:
+        ctx.v(ID, "valset:axes-or-attrs", "%s changed the axes or the metadata" % label)
+    if not isinstance(rhs, np.ndarray) or not exp.size:
+        return ('valset', rk, v0.dtype.kind, v0.ndim)
+    # the array that was assigned from and `a` stay independent: an index assignment into `a` changes exactly that cell of `a`
+    r0 = rhs.copy()
+    pos = tuple(rng.randrange(n) for n in exp.shape)
+    _, exc = ctx.call("a.ix[%r] = -1 after %s" % (pos, label), lambda: a.ix.__setitem__(pos if len(pos) > 1 else pos[0], -1), operands=(a,), mutates=(a,), meta=None)
+    e2 = exp.copy()
+    e2[pos] = -1
+    if exc is not None:
+        ctx.v(ID, "valset:follow-up-raised", "a.ix[%r] = -1 after %s raised %s: %s" % (pos, label, type(exc).__name__, str(exc)[:100]))
+    else:
+        if not model.values_eq(a.values, e2):
+            ctx.v(ID, "valset:follow-up-cells", "a.ix[%r] = -1 after %s: values %s, expected %s" % (pos, label, model.brief(a.values), model.brief(e2)))
+        if not model.values_eq(rhs, r0):
+            ctx.v(ID, "valset:assigned-from-array-changed", "a.ix[%r] = -1 after %s also changed the array that was assigned from: %s (was %s)" % (
+                pos, label, model.brief(rhs), model.brief(r0)))
+    # ... and a later change of that array does not move `a`
+    keep = np.array(a.values, copy=True)
+    rhs[...] = -7
+    if not model.values_eq(a.values, keep):
+        ctx.v(ID, "valset:follows-source", "%s: a later in-place change of the assigned-from array shows in a: %s (was %s)" % (label, model.brief(a.values), model.brief(keep)))
+    return ('valset', rk, v0.dtype.kind, v0.ndim)
+
+
 def check(case, ctx):
+    if case.get("block") == "valset":
+        return check_valset(case, ctx)
     sp = case["a"]
     m = model.from_spec(sp)
     a = gen.build(sp)
